@@ -183,6 +183,25 @@ func init() {
 		Rule: "one run = 2-12 hole-punching sessions between a scripted visitor and a scripted xtcp owner on real frps with generated NAT observations (equal/changing IPs and ports, edge ports, too few, malformed, public), right/wrong signatures, unknown proxies, and message orders (report before the owner's answer, duplicates, unknown session ids, silent owner); responses are checked for pairing, complementarity, mode rules, candidate ranges, third-party silence; finally the real MakeHole routine is run for both roles on an unfiltered simulated UDP network; distinct = distinct event-log hash",
 		Assume: []string{"STUN discovery is not simulated: observations are generated, and for the meet test they are the peers' real simulated addresses"},
 	})
+	reg(&propSpec{ID: "C14", Level: "fault_enumeration",
+		Batches: []batchSpec{
+			{Name: "l1", World: "liveness", Weight: 6},
+			{Name: "l2", World: "liveness", Weight: 2, Park: 0.002, Gos: 0.01},
+		},
+		Stub: []string{"network (simnet) with partitions, resets, node crash/restart", "scripted client / scripted server (independent protocol implementation)", "echo backend", "users", "clock (simulated days cost milliseconds)"},
+		Rule: "one run = one of five scenarios drawn with its parameters: (a) real frps vs a scripted client that falls silent (just silent / blackholed / chatty without heartbeats) at an arbitrary moment, heartbeat timeout 3-90 s, mux on/off; (b) valid heartbeats with jitter for up to 20000 beats, or real frpc+frps left alone for 1-5 simulated days; (c) real frpc vs a scripted server that stops answering heartbeats; (d) real frpc+frps with 1-7 faults (connection resets, blackholes of 2 s - 2 h, server crash and restart after 1 s - 10 min) then bounded healing incl. tunnel round trips; (e) real frpc vs an absent / refusing / flapping scripted server for 30 s - 6 h: attempt-rate cap, then re-login and re-registration of all proxies; distinct = distinct event-log hash",
+		Assume: []string{"with stream multiplexing, a blackhole that cuts a mux frame in half delays the server-side teardown until the mux keep-alive gives up (interval 30 s + 10 s write timeout); the bound used in that one case is heartbeatTimeout + 48 s (DESIGN.md §8 C14)"},
+	})
+	reg(&propSpec{ID: "C19", Level: "exploration",
+		Batches: []batchSpec{
+			{Name: "l1", World: "client", Weight: 6},
+			{Name: "l2", World: "client", Weight: 2, Park: 0.005, Gos: 0.02},
+		},
+		Real: []string{"client.Service, client/proxy manager and wrapper, client/health monitor, client control and connector", "golib", "net/http (health probes)"},
+		Stub: []string{"network (simnet) with per-dial verdicts (accept / refuse / blackhole) on the probe target", "scripted server (independent protocol implementation) with per-proxy reply policy: success, error, transient error, late, never", "echo / HTTP probe backends", "clock"},
+		Rule: "one run = either a reload history (1-6 configuration sets over six proxies of five types - add, remove, change, reorder - applied at moments between 0 and 70 s after the previous one, against server reply policies) or a health history (tcp or http probes with drawn interval/timeout/maxFailed against a schedule of 12-50 probe outcomes); oracles over the message trace at the scripted server, the status API and a work-connection probe; distinct = distinct event-log hash",
+		Assume: []string{"visitors are not reloaded in this world; the timing constants of the proxy wrapper (3 s check, 20 s wait, 30 s retry) are not mirrored: convergence is given 110 s"},
+	})
 	reg(&propSpec{ID: "C10", Level: "fault_enumeration",
 		Batches: []batchSpec{
 			{Name: "cycles", World: "release", Weight: 5},
